@@ -131,6 +131,63 @@ CLAIMS = {
             "NOT decided: every numerical clause (point sets, areas, tolerances, least-squares degree reduction, "
             "near-duplicate parameters). pynurbs knot operations are trusted.",
             "DESIGN.md section 2, C15"),
+    "C04": ("abstract interpretation of the integral routines on stand-in values (exact rationals), symbolic "
+            "polynomial comparison of the default node count",
+            "Decides the Green-formula plumbing (exponent a+1, divisor a+1, every boundary curve, arguments forwarded), "
+            "the layer forwarding down to segments, the coordinate roles of the per-segment quadrature sum (also for "
+            "segments with coincident end ordinates / abscissae), that the default node count covers the integrand "
+            "degree for straight segments for all exponents, and the float() routes of every shape kind.",
+            "NOT decided: the quadrature weights (pynurbs), accuracy for curved boundaries, numeric values. Only a "
+            "small named fraction of the statement.",
+            "DESIGN.md section 2, C04"),
+    "C05": ("finite-domain truth tables + abstract runs of both recombination cores (partition of boundary pieces) + "
+            "abstract runs of the in-place inversions + cache coherence + Green plumbing",
+            "Decides the structural reasons behind the measure identities: derived operators are the right Boolean "
+            "combinations, each boundary piece off the other boundary is selected by exactly one of union / "
+            "intersection, the complement reverses every boundary (order and each segment), the orientation cache "
+            "stays coherent under in-place inversion, and the measures are summed over every curve.",
+            "NOT decided: that follow_path uses each selected piece exactly once; tolerance of the identities for "
+            "float / curved input.",
+            "DESIGN.md section 2, C05"),
+    "C16": ("abstract interpretation of the factories on valid / boundary / invalid parameters and on exact rational "
+            "sizes; symbolic rotating-point stand-ins for the circle chain",
+            "Decides that every factory raises ValueError and nothing else for invalid sizes, centres and integer "
+            "parameters (at the documented boundary values) and accepts valid ones, that polygon / from_vertices keep "
+            "the vertices in order with cyclic segments, the documented vertices, counter-clockwise orientation and "
+            "closed-form area of square / triangle / 4-gon (three exact sizes decide the degree-2 polynomial), and "
+            "that the circle is a closed chain of ndivangle arcs rotated by tau/ndivangle about the centre.",
+            "NOT decided: general regular polygons (numpy trigonometry), the circle band and area convergence.",
+            "DESIGN.md section 2, C16"),
+    "C17": ("abstract interpretation of constructors, vertex enumeration, bounding boxes and the signed length on "
+            "stand-in chains and points",
+            "Decides the constructor funnel (closed chains only, junctions shared, strings rejected), that vertices "
+            "lists every control point object once in order, that boxes are componentwise min/max over all control "
+            "points joined over all parts, and the sign rule of float(curve).",
+            "NOT decided: == of curves built in different ways (numeric). Convex-hull property of Bezier curves assumed.",
+            "DESIGN.md section 2, C17"),
+    "C18": ("symbolic matrix-product check, abstract runs of the dispatch / containment decision / winding wrap, memo "
+            "and cache-coherence rules",
+            "Decides the composition order of derivative matrices, the scalar/iterable dispatch of curve(t), key "
+            "completeness and immutability of the degree-keyed memo tables, that no per-object derivative or "
+            "evaluation cache can go stale, the box clause, the decision structure of `point in segment`, and the "
+            "wrap of the subtended angle.",
+            "NOT decided: the Bernstein / Horner algebra, derivative matrices (pynurbs), split re-parametrisation, "
+            "projection accuracy -- arithmetic identities outside this family. Only a small named fraction.",
+            "DESIGN.md section 2, C18"),
+    "C19": ("abstract interpretation of the subshape setters over all input permutations and of DisjointShape.__new__ "
+            "over all list shapes; quantifier rules; truth tables",
+            "Decides that directly constructed composites are forall/sum resp. exists/sum over their subshapes, that "
+            "the stored order is canonical (24 permutations -> one order, largest area first), the collapse rules of "
+            "DisjointShape (Empty removed first; 0 -> Empty, 1 -> copy, >= 2 -> instance) and the De Morgan complement.",
+            "NOT decided: == with operator-built shapes; ties in the sort key.",
+            "DESIGN.md section 2, C19"),
+    "C20": ("abstract interpretation of patch_segment / path_jordan / path_shape / plot_shape with stand-in matplotlib "
+            "objects; effect analysis",
+            "Decides the degree dispatch (LINETO / CURVE3 / CURVE4 with matching vertex counts, other degrees refused), "
+            "the path grammar per boundary curve, the per-component fill / hole decision, one outline and scatter per "
+            "curve coloured by its own orientation, Empty / Whole handling, and that plotting does not modify the shape.",
+            "NOT decided: what matplotlib renders.",
+            "DESIGN.md section 2, C20"),
 }
 
 NOT_YET = "check not built yet in this round (planned, see DESIGN.md section 2)"
